@@ -5,9 +5,23 @@ import Proofs.C15Concat
 
 Property theorems about the model `Model/Store.lean` of `ra.save`, `ra.load`,
 `load_as_concatenated`, `sound_trajectory`.  Values (`α`), frames (`β`) and dtypes (a tag) are
-opaque: "bit-identical" is equality of the stored entries.  What is *not* covered here (HDF5,
-zlib, mdtraj, the process pool, `mp.Array`) is exercised by the correspondence check
-`harness/props/c15.py`, which also compares this model with the real code case by case.
+opaque: "bit-identical" is equality of the stored entries.
+
+Outside the model, exercised only by the correspondence check `harness/props/c15.py` (which also
+compares this model with the real code case by case):
+* HDF5 / zlib and the **compression level** (cannot influence the stored values; 0/1/9 are run),
+  mdtraj's readers, the process pool, `mp.Array`;
+* the **HDF5 listing order**: `listNodes` (names sorted as strings) is a trusted description of
+  PyTables' `list_nodes`, compared with the real listing in every case;
+* **per-file atom-count mismatches** (frames of different shape in one call): frames are opaque;
+* **float exactness of `math.ceil(n_frames / stride)`**: modelled as the exact `⌈n/s⌉`
+  (equal for `n_frames < 2^53 / stride`);
+* the legacy `keys=None` file format, negative strides.
+
+Theorems carrying the PyTables guard `Storable` (no empty row, no zero inner dimension — the
+unguarded statement is false, see `save_load_roundtrip_full_counterexample`) are named
+`…_partial`: `save_load_roundtrip_partial`, `save_load_roundtrip_identity_partial`,
+`load_subset_eq_rows_partial`, `save_load_roundtrip_ndarray_partial`.
 -/
 open Ens Ens.Store
 
@@ -124,11 +138,12 @@ theorem save_ok_of_storable {α} (tag : Name) (dt : String) (inner : List Nat) (
     List.contains_eq_mem, decide_eq_false_iff_not]
   exact ⟨h1, h2⟩
 
-/-- **Subset / stride load of a saved array** (same `Storable` guard as the round trip): loading any non-empty list of rows `idx` (any
+/-- **Subset / stride load of a saved array** (partial: same `Storable` guard as
+`save_load_roundtrip_partial`): loading any non-empty list of rows `idx` (any
 order, repetitions allowed) with stride `s ≥ 1` returns exactly the rows `rows[i][::s]`, `i ∈ idx`,
 in the order asked for, with their `⌈len/s⌉` lengths, element type and inner shape; a plain
 array comes back iff one key was asked for. -/
-theorem load_subset_eq_rows {α} [Inhabited α] (tag : Name) (dt : String) (inner : List Nat)
+theorem load_subset_eq_rows_partial {α} [Inhabited α] (tag : Name) (dt : String) (inner : List Nat)
     (rows : List (List α)) (hst : Storable inner rows)
     (idx : List (Fin rows.length)) (hne : idx ≠ []) (s : Nat) (hs : 0 < s) :
     ∃ f r, save tag (.ragged dt inner rows) = .ok f
@@ -189,8 +204,9 @@ example : Storable ([] : List Nat) [[1, 2, 3], [4, 5], [6]] := by
   rcases hr with rfl | rfl | rfl <;> simp
 
 /-- a rectangular `ndarray` is stored as the single node `tag_0` and comes back as the array
-(strided along its first axis) -/
-theorem save_load_roundtrip_ndarray {α} [Inhabited α] (tag : Name) (dt : String) (inner : List Nat)
+(strided along its first axis).  Partial: the guard `data ≠ []`, `0 ∉ inner` is the `Storable`
+condition for the single node (PyTables refuses a zero dimension). -/
+theorem save_load_roundtrip_ndarray_partial {α} [Inhabited α] (tag : Name) (dt : String) (inner : List Nat)
     (data : List α) (hd : data ≠ []) (hi : 0 ∉ inner) (s : Nat) (hs : 0 < s) :
     ∃ f, save tag (.ndarray dt inner data) = .ok f
       ∧ names f = [tag ++ "_0".toList]
@@ -248,6 +264,11 @@ theorem save_rejects_unstorable {α} (tag : Name) (dt : String) (inner : List Na
 /-- the lengths of the individually loaded trajectories -/
 abbrev trueLengths {β} (specs : List (FileSpec β)) : List Nat := (specs.map (·.loaded)).map List.length
 
+/-- `load_as_concatenated([])` raises `IndexError` (`args[0]` is evaluated first), with or
+without a hint, for every schedule -/
+theorem parallel_load_no_files_rejected {β} (hint : Option (List Nat)) (order : List Nat) (init : Nat → β) :
+    loadAsConcatenated ([] : List (FileSpec β)) hint order init = .error .indexError := rfl
+
 /-- **Windows are disjoint and tile the buffer**: with offsets `sum(lengths[0:i])` the positions
 written by all workers together are `0, 1, …, total-1`, each exactly once. -/
 theorem windows_disjoint {β} (specs : List (FileSpec β)) :
@@ -259,12 +280,14 @@ theorem windows_disjoint {β} (specs : List (FileSpec β)) :
 /-- **Order independence (completion order)**: lengths sounded (`hint = none`, mdtraj's stride
 contract assumed) or given correctly; for *every* order in which the workers perform their
 window writes and every initial buffer content, the result is the true lengths and the
-concatenation, in file order, of the individually loaded trajectories. -/
+concatenation, in file order, of the individually loaded trajectories.  At least one file
+(`specs ≠ []`): the empty call raises `IndexError`, see `parallel_load_no_files_rejected`. -/
 theorem parallel_load_order_independent {β} (specs : List (FileSpec β)) (hint : Option (List Nat))
+    (hne : specs ≠ [])
     (hh : (hint = none ∧ ∀ sp ∈ specs, MdLoadContract sp) ∨ hint = some (trueLengths specs))
     (order : List Nat) (hp : order.Perm (List.range specs.length)) (init : Nat → β) :
     loadAsConcatenated specs hint order init = .ok (trueLengths specs, (specs.map (·.loaded)).flatten) := by
-  apply loadAsConcatenated_of_lengths specs hint ?_ order hp init
+  apply loadAsConcatenated_of_lengths specs hint hne ?_ order hp init
   rcases hh with ⟨rfl, hc⟩ | rfl
   · simp only [resolveLengths]
     rw [soundAll_of_contract specs hc, List.map_map]
@@ -322,12 +345,15 @@ theorem lengths_mismatch_detected_partial {β} (specs : List (FileSpec β)) (hin
     (hbad : hint.length ≠ specs.length ∨ hint.sum ≠ (trueLengths specs).sum)
     (order : List Nat) (hp : order.Perm (List.range specs.length)) (init : Nat → β) :
     ∃ e, loadAsConcatenated specs (some hint) order init = .error e := by
+  by_cases hne : specs = []
+  · subst hne; exact ⟨.indexError, rfl⟩
   rcases hbad with hl | hs
   · refine ⟨.improperlyConfigured, ?_⟩
     unfold loadAsConcatenated
+    rw [if_neg (by simpa using hne)]
     rw [show resolveLengths specs (some hint)
       = (if hint.length ≠ specs.length then .error .improperlyConfigured else .ok hint) from rfl, if_pos hl]
-  · obtain ⟨e, he, _⟩ := hint_total_mismatch_rejected specs hint hs order hp init
+  · obtain ⟨e, he, _⟩ := hint_total_mismatch_rejected specs hint hne hs order hp init
     exact ⟨e, he⟩
 
 /-- Full strength would be: *every* wrong hint is refused. -/
